@@ -342,14 +342,21 @@ Definition parse_stop_times (stops : list stop) (trips : list strip) (hdr : list
 Definition member (name : string) (ms : list (string * string)) : option string :=      (* the last member with that name *)
   fold_left (fun acc m => if String.eqb (fst m) name then Some (snd m) else acc) ms None.
 Inductive opened := Absent | Bad | Rows (hdr : list string) (rows : list (list string)).
-Definition open_file (name : string) (ms : list (string * string)) : opened :=
+(* csv.New fails when the first record is malformed or there is none; a CSV error in a LATER record fails the parse only if
+   the file's row loop runs, i.e. if all of the file's required columns are present (otherwise the function returns before
+   reading a row and the rest of the file is never looked at) *)
+Definition open_file (name : string) (required_cols : list string) (ms : list (string * string)) : opened :=
   match member name ms with
   | None => Absent
-  | Some bytes => match read_all_s bytes with
-                  | Some (hdr :: rows) => Rows hdr rows
-                  | Some [] => Bad           (* "CSV file contains no rows" *)
-                  | None => Bad              (* a CSV error anywhere in the file fails the whole parse *)
-                  end
+  | Some bytes =>
+    match read_header_s bytes with
+    | None => Bad                              (* "CSV file contains no rows", or a malformed header record *)
+    | Some hdr =>
+      match read_all_s bytes with
+      | Some (_ :: rows) => Rows hdr rows
+      | _ => if has_columns hdr required_cols then Bad else Rows hdr []
+      end
+    end
   end.
 Definition first_zone (agencies : list agency) : string := match agencies with a :: _ => ag_timezone a | [] => "UTC" end.
 
@@ -359,44 +366,44 @@ Definition parse_static_gen (services_of' : list (string * service) -> list serv
     (parse_shapes' : list string -> list (list string) -> list shape)
     (parse_stop_times' : list stop -> list strip -> list string -> list (list string) -> list strip)
     (inherit : bool) (ms : list (string * string)) : outcome static :=
-  match open_file "agency.txt" ms with
+  match open_file "agency.txt" ["agency_name"; "agency_url"; "agency_timezone"] ms with
   | Absent => Err "no agency.txt" | Bad => Err "agency.txt"
   | Rows h1 r1 =>
     let '(agencies, warns) := parse_agencies h1 r1 in
     let zone := first_zone agencies in
-    match open_file "routes.txt" ms with
+    match open_file "routes.txt" ["route_id"; "route_type"] ms with
     | Absent => Err "no routes.txt" | Bad => Err "routes.txt"
     | Rows h2 r2 =>
       let routes := parse_routes agencies h2 r2 in
-      match open_file "stops.txt" ms with
+      match open_file "stops.txt" ["stop_id"] ms with
       | Absent => Err "no stops.txt" | Bad => Err "stops.txt"
       | Rows h3 r3 =>
         let stops := parse_stops inherit h3 r3 in
-        match open_file "transfers.txt" ms with
+        match open_file "transfers.txt" ["from_stop_id"; "to_stop_id"] ms with
         | Bad => Err "transfers.txt"
         | tf =>
           let transfers := match tf with Rows h r => parse_transfers stops h r | _ => [] end in
-          match open_file "calendar.txt" ms with
+          match open_file "calendar.txt" (["start_date"; "end_date"; "service_id"] ++ day_cols) ms with
           | Bad => Err "calendar.txt"
           | cf =>
             let m1 := match cf with Rows h r => parse_calendar zone [] h r | _ => [] end in
-            match open_file "calendar_dates.txt" ms with
+            match open_file "calendar_dates.txt" ["service_id"; "date"; "exception_type"] ms with
             | Bad => Err "calendar_dates.txt"
             | cdf =>
               let services := services_of' (match cdf with Rows h r => parse_calendar_dates zone m1 h r | _ => m1 end) in
-              match open_file "shapes.txt" ms with
+              match open_file "shapes.txt" ["shape_id"; "shape_pt_lat"; "shape_pt_lon"; "shape_pt_sequence"] ms with
               | Bad => Err "shapes.txt"
               | sf =>
                 let shapes := match sf with Rows h r => parse_shapes' h r | _ => [] end in
-                match open_file "trips.txt" ms with
+                match open_file "trips.txt" ["route_id"; "service_id"; "trip_id"] ms with
                 | Absent => Err "no trips.txt" | Bad => Err "trips.txt"
                 | Rows h8 r8 =>
                   let trips := parse_trips routes services shapes h8 r8 in
-                  match open_file "frequencies.txt" ms with
+                  match open_file "frequencies.txt" ["trip_id"; "start_time"; "end_time"; "headway_secs"] ms with
                   | Bad => Err "frequencies.txt"
                   | ff =>
                     let trips := match ff with Rows h r => parse_frequencies trips h r | _ => trips end in
-                    match open_file "stop_times.txt" ms with
+                    match open_file "stop_times.txt" ["stop_id"; "stop_sequence"; "trip_id"] ms with
                     | Absent => Err "no stop_times.txt" | Bad => Err "stop_times.txt"
                     | Rows h10 r10 =>
                       Ok {| x_agencies := agencies; x_routes := routes; x_stops := stops; x_transfers := transfers; x_services := services;
